@@ -77,8 +77,8 @@ def onchain(ver, r, aslot, cbits, bits, length, dindex=0):
     return {"ver": ver, "r": r, "aslot": aslot, "dindex": dindex, "cbits": sorted(cbits), "bits": sorted(bits), "len": length}
 
 
-def sub(typ, slot, ents, at=None, hook=None):
-    s = {"ev": "Sub", "typ": typ, "slot": slot, "ents": ents}
+def sub(typ, slot, ents, at=None, hook=None, bcast="ok"):
+    s = {"ev": "Sub", "typ": typ, "slot": slot, "ents": ents, "bcast": bcast}
     if hook is not None:
         s["in"] = hook
     else:
@@ -86,8 +86,8 @@ def sub(typ, slot, ents, at=None, hook=None):
     return s
 
 
-def cfg(flag, tps, start, off, spe, end, sizes, duty=None, blocks=None, blk=None, duterr=(), comerr=(), dcache=False, tag="dirty"):
-    return {"ev": "Cfg", "flag": flag, "dcache": dcache, "tps": tps, "start": start, "off": off, "spe": spe, "end": end, "sizes": sizes,
+def cfg(flag, tps, start, off, spe, end, sizes, duty=None, blocks=None, blk=None, duterr=(), comerr=(), dcache=False, tag="dirty", wire=False):
+    return {"ev": "Cfg", "flag": flag, "dcache": dcache, "wire": wire, "tps": tps, "start": start, "off": off, "spe": spe, "end": end, "sizes": sizes,
             "duty": duty or {}, "blocks": {str(k): v for k, v in (blocks or {}).items()}, "blk": {str(k): v for k, v in (blk or {}).items()},
             "duterr": sorted(duterr), "comerr": [list(x) for x in comerr], "tag": tag}
 
@@ -461,7 +461,15 @@ def random_on(r, big):
 
 def random_schedules(seed, n, big):
     r = vlib.rng(seed, "inclusion-rnd")
-    return [random_on(r, big) if r.random() < 0.7 else random_off(r, big) for _ in range(n)]
+    out = []
+    for _ in range(n):
+        s = random_on(r, big) if r.random() < 0.7 else random_off(r, big)
+        if r.random() < 0.2:      # through the wiring of core.WithTracking: the Broadcaster edge, the broadcast itself may fail
+            s[0]["wire"] = True
+            for st in s[1:]:
+                st["bcast"] = r.choice(["ok", "ok", "err"])
+        out.append(s)
+    return out
 
 
 # ----------------------------------------------------------------------------------------------------------------------
@@ -641,7 +649,31 @@ def mutators():
                     return t
         return None
 
-    return [("tracker callback's error flipped", trk_flip), ("tracker callback not observed", trk_dropped),
+    def broadcast_skipped(t):
+        k = first(t, lambda e: e["ev"] == "Bcast")
+        if k is None:
+            return None
+        del t[k]
+        return t
+
+    def edge_result(t):
+        k = first(t, lambda e: e["ev"] == "Sub" and e["wire"])
+        if k is None:
+            return None
+        j = first(t, lambda e: e["ev"] == "SubRet", k)
+        t[j]["err"] = not t[j]["err"]
+        return t
+
+    def broadcast_before_submitted(t):
+        for k, e in enumerate(t):
+            if e["ev"] == "Subm" and t[k + 1]["ev"] == "Bcast":
+                t[k], t[k + 1] = t[k + 1], t[k]
+                return t
+        return None
+
+    return [("wiring: broadcaster not called", broadcast_skipped), ("wiring: edge's return value flipped", edge_result),
+            ("wiring: broadcast before Submitted", broadcast_before_submitted),
+            ("tracker callback's error flipped", trk_flip), ("tracker callback not observed", trk_dropped),
             ("report's log record not observed", log_dropped), ("inclusion delay off by one", incl_delay),
             ("included in another block", incl_block), ("broadcast delay changed by 1 s", bcast_delay),
             ("tracker callback for another pubkey", other_pubkey), ("a submission reported twice", reported_twice),
